@@ -97,6 +97,7 @@ type vConn struct {
 	writes      int
 	failWriteAt int // Write calls after this many fail; <0: never
 	failWriteOnly int // > 0: exactly this Write call (1-based) fails, the others succeed
+	failWriteErr  error // the error a failing Write returns (default: errVerifIO)
 	failedWrites  int
 	closed      int
 	readsAfterClose int
@@ -174,6 +175,9 @@ func (c *vConn) Write(p []byte) (int, error) {
 		}
 		c.writeFailed = true
 		c.failedWrites++
+		if c.failWriteErr != nil {
+			return 0, c.failWriteErr
+		}
 		return 0, errVerifIO
 	}
 	c.out = append(c.out, p...)
